@@ -48,6 +48,14 @@ STRENGTH = {
  "C18-7": "environment 'closed': another thread closes the frontend while connect() runs, often just before terminate() turns true (checks/c18.py)",
  "C19-7": "link timeout options below 100 ms and the clauses 'the LTO / LSC on the air are the configured ones' (checks/c19.py)",
  "C20-7": "a second authenticate() and protect()+authenticate() on the same Tag object; the Lite-S model advances WCNT with every write to non-volatile memory (checks/c20.py, dsim/w1/felica_lite.py)",
+ "C01-8": "mapping version 3 files beyond 64 KiB on a card that takes P1-P2 as a 16 bit offset (dsim/w1/gen.py gen_t4 huge=True, used by checks/c01.py)",
+ "C02-8": "a first write attempt that fails with a transient error before anything is executed, then the retry through the same NDEF object is interrupted (checks/c02.py)",
+ "C04-8": "pairs of faults that hit two different protocol steps must be recovered too (conversations without timeout extensions) (checks/c04.py)",
+ "C07-8": "SNEP fragments that start a longer Get/Put request with only a few of the announced octets (checks/c07_app.py)",
+ "C16-8": "operation read_beyond (READ of a page the tag does not have) with the NAK code of the product drawn per run (0h, 1h, 4h, 5h): the fault-free outcome must be INVALID_PAGE_ERROR (checks/c16.py, dsim/w1/t2t.py)",
+ "C17-8": "three threads resolving long names that do not fit one SNL PDU at link MIU 128 (checks/c17.py)",
+ "C18-8": "scripted reader in front of the emulated card and user callbacks that take time: when terminate() is already true at the return of the card's on-connect no further data exchange may follow (checks/c18.py)",
+ "C20-8": "NDEF octets read before authentication (altered in transit) must not be what tag.ndef returns after authenticate() succeeded (checks/c20.py)",
  "C20-4": "the NTAG21x model answers a wrong password with a NAK code drawn per run (0h, 1h, 4h, 5h) and a wrong password whose PACK ends in that code is tried (dsim/w1/t2t.py, checks/c20.py)",
 }
 rows = []
